@@ -8,6 +8,7 @@ row multiset, per-row index == Hilbert distance of its own active geometry w.r.t
 frame's total bounds, global monotonicity, partition count, independence of input partitioning.
 """
 import itertools
+import os
 
 import numpy as np
 
@@ -22,6 +23,8 @@ def sq(x0, y0, x1, y1):
     return ((x0, y0), (x1, y0), (x1, y1), (x0, y1), (x0, y0))
 
 
+B24 = float(2 ** 24 + 1)
+
 FRAMES = [
     # (points column, second column kind, second column elements); rows share geometries / are missing
     ([(0, 0), (7, 1), (7, 1), None, (3, 6), (1, 7)],
@@ -31,6 +34,9 @@ FRAMES = [
     # all points on one horizontal line (degenerate extent in y), second column multipoint
     ([(0, 3), (5, 3), (2, 3), (7, 3), (2, 3), None],
      "multipoint", [((1, 1), (2, 2)), ((6, 0),), None, ((0, 7), (1, 6)), ((6, 0),), ((4, 4),)]),
+    # a small extent far from the origin (its corners are not float32-representable), negative and fractional coordinates
+    ([(B24, B24 + 2), (B24 + 0.5, B24 + 1.5), None, (B24 + 2, B24), (B24, B24 + 2), (B24 + 1.25, B24 + 0.75)],
+     "line", [((-5.5, -5.5), (-4.4, -1.1)), None, ((0.1, 0.2), (0.3, 0.7)), ((-9.9, 3.3), (-9.9, 3.3)), ((2.2, 2.2), (7.7, 0.7)), ((-5.5, -5.5), (-4.4, -1.1))]),
 ]
 
 
@@ -85,6 +91,18 @@ def provenances(P0, n):
     dbig.partition_sindex
     _ = dbig.geometry.total_bounds
     yield "cached_bounds_then_filter", dbig[dbig["val"] < 9000]
+    # spatial index built on the partitions before packing (state carried on the arrays)
+    yield "build_sindex(2)", dd.from_pandas(P0, npartitions=min(2, n)).build_sindex()
+    # an already packed frame (another p) and a packed-then-filtered frame: the old distances must not survive
+    try:
+        prev = dd.from_pandas(P0, npartitions=min(2, n)).pack_partitions(npartitions=1, p=7)
+        prev.compute(scheduler="synchronous")
+        yield "repacked(p=7)", prev
+        pb = dbig.pack_partitions(npartitions=1, p=5)
+        pb.compute(scheduler="synchronous")
+        yield "packed_big_then_filter", pb[pb["val"] < 9000]
+    except (AssertionError, IndexError):
+        pass
     # an input partition emptied by a filter, re-filled by concatenating the complement
     if n >= 3:
         d3 = dd.from_pandas(P0, npartitions=3)
@@ -100,8 +118,9 @@ def check_pack(col, fi, n, active, thorough):
     tb = P0[active].total_bounds
     results = {}
     for pname, ddf in provenances(P0, n):
-        for npk in (range(1, n + 3) if thorough else sorted({1, 2, 3, n, n + 2})):
-            for p in (PLIST if thorough else (1, 3, 10, 20)):
+        light = not thorough and not pname.startswith("from_pandas")
+        for npk in (range(1, n + 3) if thorough else (sorted({1, 3}) if light else sorted({1, 2, 3, n, n + 2}))):
+            for p in (PLIST if thorough else ((3, 10) if light else (1, 3, 10, 20))):
                 case = {"frame": fi, "n": n, "active": active, "provenance": pname, "npartitions": npk, "p": p}
                 col.count("evaluations")
                 try:
@@ -169,6 +188,54 @@ def check_pack(col, fi, n, active, thorough):
     col.sample({"frame": fi, "n": n, "active": active, "provenance": "from_pandas(2)", "npartitions": 3, "p": 10})
 
 
+def check_big(col, scratch, active):
+    """14 rows / 12 partitions: from_pandas, parquet read-back, parquet read-back through bounds= (textual vs numeric
+    partition order in the stored bounds)"""
+    import dask.dataframe as dd
+    import pandas as pd
+    from spatialpandas import GeoDataFrame
+    from spatialpandas.io import read_parquet_dask
+    n = 14
+    pts = [(3 * i, (i * 5) % 14) for i in range(n)]
+    polys = [(sq(40 - 3 * i, i, 41 - 3 * i, i + 1),) for i in range(n)]
+    P0 = GeoDataFrame({"g1": L.make_array("point", pts, "float64"), "val": np.arange(n) * 10, "txt": [f"s{i}" for i in range(n)],
+                       "g2": L.make_array("polygon", polys, "float64")}, index=pd.Index(np.arange(n) + 100, name="idx"), geometry=active)
+    path = os.path.join(scratch, f"c09big-{os.getpid()}.parq")
+    dd.from_pandas(P0, npartitions=12).to_parquet(path, overwrite=True)
+    provs = [("from_pandas(12)", lambda: dd.from_pandas(P0, npartitions=12)),
+             ("parquet(12)", lambda: read_parquet_dask(path, geometry=active))]
+    for bx in ((-100, -100, 100, 100), (0, -100, 20, 100), (10, 3, 30, 9), (25, -1, 45, 6)):
+        provs.append((f"parquet(12,bounds={bx})", (lambda b: (lambda: read_parquet_dask(path, geometry=active, bounds=b)))(bx)))
+    for pname, mk in provs:
+        try:
+            ref = mk().compute(scheduler="synchronous")
+        except Exception as ex:
+            col.violation("provenance.raises", {"frame": "big", "n": n, "active": active, "provenance": pname, "npartitions": 0, "p": 10},
+                          f"{type(ex).__name__}: {str(ex)[:200]}")
+            continue
+        if len(ref) == 0:
+            continue
+        want_rows = sorted(rows_of(ref))
+        tb = ref[active].total_bounds
+        for npk in (3, 12):
+            case = {"frame": "big", "n": n, "active": active, "provenance": pname, "npartitions": npk, "p": 10}
+            col.count("evaluations")
+            try:
+                comp = mk().pack_partitions(npartitions=npk, p=10).compute(scheduler="synchronous")
+            except Exception:
+                col.count("raised_exempt")
+                continue
+            col.count("returned")
+            col.count("nontrivial")
+            if sorted(rows_of(comp)) != want_rows:
+                col.violation("rows", case, "packed rows differ")
+                continue
+            want_hd = np.asarray(comp[active].array.hilbert_distance(total_bounds=tuple(tb), p=10))
+            if comp.index.tolist() != want_hd.tolist() or comp.index.tolist() != sorted(comp.index.tolist()):
+                col.violation("index_not_hilbert_distance", case,
+                              f"index {comp.index.tolist()} but distances of the rows' own {active} are {want_hd.tolist()}")
+
+
 def run(ctx):
     n = 6 if ctx.thorough else 4
     units = [(fi, nn, a) for fi in range(len(FRAMES)) for a in ("g1", "g2") for nn in ((n,) if not ctx.thorough else (3, 5, 6))]
@@ -178,8 +245,14 @@ def run(ctx):
         P = base_frame(fi, 3, "g1")
         P["g1"].hilbert_distance(p=3), P["g2"].hilbert_distance(p=3)
 
+    scratch = ctx.scratch()
+    units += [("big", 14, "g1"), ("big", 14, "g2")]
+
     def work(col, i):
         fi, nn, a = units[i]
+        if fi == "big":
+            check_big(col, scratch, a)
+            return
         check_pack(col, fi, nn, a, ctx.thorough)
 
     core.pmap(ctx, work, len(units), timeout=7200)
@@ -195,6 +268,9 @@ def run(ctx):
 
 def replay(ctx, case):
     col = core.Collector()
+    if case["frame"] == "big":
+        check_big(col, ctx.scratch(), case["active"])
+        return col.violations
     check_pack(col, case["frame"], case["n"], case["active"], False)
     return [v for v in col.violations if v["case"]["provenance"] == case["provenance"]
             and v["case"]["npartitions"] == case["npartitions"] and v["case"]["p"] == case["p"]]
